@@ -34,6 +34,19 @@ def _ensure_integer_ids(df: pd.DataFrame) -> pd.DataFrame:
         id_mapping = {
             original_id: new_id for new_id, original_id in enumerate(unique_ids, start=1)
         }
+        # a parent that is not one of the ids would silently turn into "no parent"
+        unknown_parents = [
+            parent
+            for parent in df["parent_id"]
+            if not pd.isna(parent)
+            and parent not in id_mapping
+            and parent not in (-1, "-1", "")
+        ]
+        if unknown_parents:
+            raise ValueError(
+                f"The 'parent_id' column refers to ids that are not in the 'id' column: "
+                f"{unknown_parents}"
+            )
         df["id"] = df["id"].map(id_mapping)
         df["parent_id"] = df["parent_id"].map(id_mapping).astype(pd.Int64Dtype())
 
